@@ -5,6 +5,7 @@ import (
 	"go/ast"
 	"go/token"
 	"go/types"
+	"strings"
 
 	"golang.org/x/tools/go/packages"
 )
@@ -155,4 +156,89 @@ func listStackOrder(c *Ctx, p *Prog, pk *packages.Package, prefix string) (nPop,
 		})
 	}
 	return nPop, nPush
+}
+
+// overlap-copy-direction (C03 wat2c, C02 native translators; added after a defect was found on the unchanged tree):
+// a branch that carries results moves them down to the target block's base — under `if first > base`, slot base+i
+// receives slot first+i. When the two ranges overlap (first - base smaller than the number of results) a copy from the
+// last result to the first overwrites a slot before it is read: (1, 2) arrives as (2, 2). A loop under a `>` test
+// that writes to <base>+i must therefore run from the first element to the last.
+func copyDirection(c *Ctx, p *Prog, pk *packages.Package, prefix string) int {
+	const rule = "overlap-copy-direction"
+	info := pk.TypesInfo
+	n := 0
+	seq := map[string]int{}
+	for _, name := range sortedDeclNames(pk) {
+		fd := AllFuncDecls(pk)[name]
+		if fd.Body == nil {
+			continue
+		}
+		ast.Inspect(fd.Body, func(nd ast.Node) bool {
+			ifs, ok := nd.(*ast.IfStmt)
+			if !ok {
+				return true
+			}
+			be, ok := ast.Unparen(ifs.Cond).(*ast.BinaryExpr)
+			if !ok || be.Op != token.GTR {
+				return true
+			}
+			base := types.ExprString(ast.Unparen(be.Y))
+			if base == "0" || base == "" {
+				return true
+			}
+			for _, s := range ifs.Body.List {
+				fs, ok := s.(*ast.ForStmt)
+				if !ok {
+					continue
+				}
+				inc, ok := fs.Post.(*ast.IncDecStmt)
+				if !ok {
+					continue
+				}
+				lv, ok := inc.X.(*ast.Ident)
+				if !ok {
+					continue
+				}
+				lobj := info.ObjectOf(lv)
+				// does the loop emit text with an argument built from base and the loop variable?
+				writes := false
+				ast.Inspect(fs.Body, func(m ast.Node) bool {
+					call, ok := m.(*ast.CallExpr)
+					if !ok {
+						return true
+					}
+					fn := CalleeOf(info, call)
+					if fn == nil || fn.Pkg() == nil || fn.Pkg().Path() != "fmt" || fn.Name() != "Fprintf" {
+						return true
+					}
+					for _, a := range call.Args[1:] {
+						txt := types.ExprString(a)
+						if !strings.Contains(txt, base) {
+							continue
+						}
+						ast.Inspect(a, func(q ast.Node) bool {
+							if id, ok := q.(*ast.Ident); ok && info.ObjectOf(id) == lobj {
+								writes = true
+							}
+							return true
+						})
+					}
+					return true
+				})
+				if !writes {
+					continue
+				}
+				n++
+				key := fmt.Sprintf("%s%s: copy to %s+%s under `%s`", prefix, name, base, lv.Name, types.ExprString(ifs.Cond))
+				seq[key]++
+				if seq[key] > 1 {
+					key = fmt.Sprintf("%s #%d", key, seq[key])
+				}
+				c.Check(inc.Tok == token.INC, rule, key, p.Pos(fs.Pos()), "copies from the first element to the last",
+					"the values are moved down to "+base+" (the copy is under `"+types.ExprString(ifs.Cond)+"`) from the last element to the first: when the source and the destination ranges overlap, a slot is overwritten before it is read and two or more carried results arrive as copies of the last one")
+			}
+			return true
+		})
+	}
+	return n
 }
